@@ -5,6 +5,7 @@ import (
 	"fmt"
 	"runtime"
 	"runtime/debug"
+	"sort"
 	"strconv"
 	"sync"
 	"testing"
@@ -113,7 +114,25 @@ type Parked struct {
 	Seq   int
 	GID   uint64
 	Label string
+	Entry string // entry function of the goroutine (stable identity across executions)
 	ch    chan struct{}
+}
+
+// goEntry returns the entry function of the calling goroutine, read from its stack dump.
+func goEntry() string {
+	buf := make([]byte, 16384)
+	n := runtime.Stack(buf, false)
+	lines := bytes.Split(buf[:n], []byte("\n"))
+	for i, l := range lines {
+		if bytes.HasPrefix(l, []byte("created by ")) && i >= 2 {
+			f := string(lines[i-2])
+			if k := bytes.LastIndexByte([]byte(f), '('); k > 0 {
+				f = f[:k]
+			}
+			return f
+		}
+	}
+	return "?"
 }
 
 // Parker parks every goroutine that is not the driver at each Gate call; the driver releases one at a
@@ -142,22 +161,41 @@ func (p *Parker) Gate(label string) {
 	}
 	p.seq++
 	p.Total++
-	pk := &Parked{Seq: p.seq, GID: GoID(), Label: label, ch: make(chan struct{})}
+	pk := &Parked{Seq: p.seq, GID: GoID(), Label: label, Entry: goEntry(), ch: make(chan struct{})}
 	p.parked = append(p.parked, pk)
 	p.mu.Unlock()
 	<-pk.ch
 }
 
-// Waiting returns the parked goroutines in arrival order (call after synctest.Wait()).
+// sortLocked orders the parked goroutines by (entry function, label, arrival). Arrival order at the gate is
+// decided by the Go scheduler when several goroutines run between two quiescence points, and goroutine ids are
+// handed out in per-P batches, so neither replays; the entry function does. Worlds must make sure that at most
+// one goroutine per entry function can be parked at a time (or that same-entry goroutines are interchangeable).
+func (p *Parker) sortLocked() {
+	sort.SliceStable(p.parked, func(i, j int) bool {
+		a, b := p.parked[i], p.parked[j]
+		if a.Entry != b.Entry {
+			return a.Entry < b.Entry
+		}
+		if a.Label != b.Label {
+			return a.Label < b.Label
+		}
+		return a.Seq < b.Seq
+	})
+}
+
+// Waiting returns the parked goroutines in a replayable order (call after synctest.Wait()).
 func (p *Parker) Waiting() []*Parked {
 	p.mu.Lock()
 	defer p.mu.Unlock()
+	p.sortLocked()
 	return append([]*Parked(nil), p.parked...)
 }
 
-// Release lets the i-th parked goroutine (arrival order) proceed to its next seam call.
+// Release lets the i-th parked goroutine (order of Waiting) proceed to its next seam call.
 func (p *Parker) Release(i int) bool {
 	p.mu.Lock()
+	p.sortLocked()
 	if i < 0 || i >= len(p.parked) {
 		p.mu.Unlock()
 		return false
